@@ -188,7 +188,17 @@ func C17Scenario() *Scenario {
 		w.Stages = []Stage{
 			{Name: "converge", Quiet: true, MaxSteps: 4000, Policy: fair, Do: func(w *World) { chaos = false }},
 			{Name: "rollout", Policy: pol, Steps: 150 + 100*t.Pick(4, "len"), Do: func(w *World) { chaos = true }},
-			{Name: "settle", Quiet: true, MaxSteps: 6000, Policy: fair, Do: func(w *World) { chaos = false; b.Left = 0; settled = w.step },
+			{Name: "settle", Quiet: true, MaxSteps: 6000, Policy: fair, Do: func(w *World) { chaos = false; b.Left = 0; settled = w.step }},
+			// an injected 404 or 409 is a lie (the object is there / is not there), and
+			// metacontroller rightly believes it: "already exists" on a create and "not
+			// found" on the parent end a sync without an error. Only a further event makes
+			// it look again, so every parent gets one before convergence is judged.
+			{Name: "nudge", Quiet: true, MaxSteps: 6000, Policy: fair,
+				Do: func(w *World) {
+					for _, p := range s.Parents {
+						EditObject(w, p.Res, p.NS, p.Name, "user", func(o Object) { setPath(o, "1", "metadata", "annotations", "nudge") })
+					}
+				},
 				Check: func(w *World) *Violation {
 					if v := c17HookOracle(w, s.Sig, fps); v != nil {
 						return v
